@@ -89,6 +89,60 @@ def aglText (gl : GlyphList) : Option Name → Option Text
   | none => none
   | some n => let t := aglSpec gl n; if t.isEmpty then none else some t
 
+/-! ### pdfminer's glyph-name algorithm for EVERY name: AGL section 2 with its two deliberate deviations
+
+(D1) the hexadecimal digits after `uni` / `u` may be of either case (pinned by pdfminer's unit tests; AGL:
+upper case only); (D2) a component without a value makes the whole name undefined (AGL: it contributes the
+empty string and the other components are kept). -/
+
+/-- `0`-`9`, `A`-`F`, `a`-`f` (by code point). -/
+def anyHexVal (c : Char) : Option Nat :=
+  match upperHexVal c with
+  | some v => some v
+  | none => let n := c.toNat; if 97 ≤ n ∧ n ≤ 102 then some (n - 87) else none
+
+def isAnyHex (c : Char) : Bool := (anyHexVal c).isSome
+
+def anyHexNum (s : List Char) : Nat := s.foldl (fun acc c => acc * 16 + (anyHexVal c).getD 0) 0
+
+/-- `uniForm` with digits of either case. -/
+def uniFormL (c : Name) : Option Text :=
+  if c.take 3 = ['u', 'n', 'i'] then
+    let r := c.drop 3
+    if r.all isAnyHex && r.length % 4 == 0 then
+      let vs := (fours r).map anyHexNum
+      if vs.all isScalar then some vs else none
+    else none
+  else none
+
+/-- `uForm` with digits of either case. -/
+def uFormL (c : Name) : Option Text :=
+  if c.take 1 = ['u'] then
+    let r := c.drop 1
+    if r.all isAnyHex && 4 ≤ r.length && r.length ≤ 6 && isScalar (anyHexNum r) then some [anyHexNum r]
+    else none
+  else none
+
+/-- Step 3 for one component, deviation (D1). -/
+def aglCompL (gl : GlyphList) (c : Name) : Text :=
+  match glLookup gl c with
+  | some t => t
+  | none =>
+    match uniFormL c with
+    | some t => t
+    | none =>
+      match uFormL c with
+      | some t => t
+      | none => []
+
+/-- The exact algorithm: drop the suffix, split at underscores, map every component (D1); undefined when a
+component has no value (D2), else the concatenation. -/
+def pdfminerAgl (gl : GlyphList) : Option Name → Option Text
+  | none => none
+  | some n =>
+    let vs := (components (dropSuffix n)).map (aglCompL gl)
+    if vs.all (fun t => !t.isEmpty) then some vs.flatten else none
+
 /-! ### The grammar of the property: well-formed glyph names -/
 
 /-- A component of the grammar: a list name, `uni` + one or more groups of four uppercase hex digits
@@ -153,6 +207,17 @@ def encColumn (cols : List (String × Nat)) (dflt : Nat) (name : String) : Nat :
   match cols.find? (fun e => e.1 == name) with
   | some e => e.2
   | none => dflt
+
+/-! ### Differences arrays as runs (ISO 32000-1 9.6.6.1: "code1 name1,1 name1,2 … code2 name2,1 …") -/
+
+/-- Consecutive numbering of the names of one run. -/
+def numberFrom : Int → List (Option Name) → List (Int × Option Name)
+  | _, [] => []
+  | c, n :: ns => (c, n) :: numberFrom (c + 1) ns
+
+/-- The Differences array of a list of runs `(first code, names)`. -/
+def diffOfRuns (runs : List (Int × List (Option Name))) : List DiffTok :=
+  runs.flatMap (fun r => DiffTok.num r.1 :: r.2.map DiffTok.name)
 
 structure Tables where
   gl : GlyphList
@@ -236,15 +301,19 @@ def widthsEntry (fd : FontDict) (code : Int) : Option Rat :=
     if 0 ≤ i then ws[i.toNat]? else none
   | none => none
 
-/-- The standard-14 metric of the character of `code` (fonts named like one of the standard 14 only). -/
-def std14Metric (T : Tables) (fd : FontDict) (code : Int) : Option Rat :=
+/-- The standard-14 metric of a character string `u` (fonts named like one of the standard 14 only). -/
+def std14MetricOf (T : Tables) (fd : FontDict) (u : Option Text) : Option Rat :=
   if fd.isType3 then none else
-  match getMetrics T.fm (fd.baseFont.getD "unknown"), specUnicode T fd code with
+  match getMetrics T.fm (fd.baseFont.getD "unknown"), u with
   | some m, some [c] =>
     match slookup m c with
     | some w => some (w : Rat)
     | none => none
   | _, _ => none
+
+/-- The standard-14 metric of the character of `code` (fonts named like one of the standard 14 only). -/
+def std14Metric (T : Tables) (fd : FontDict) (code : Int) : Option Rat :=
+  std14MetricOf T fd (specUnicode T fd code)
 
 def missingWidth (fd : FontDict) : Rat :=
   match fd.desc with
@@ -254,14 +323,19 @@ def missingWidth (fd : FontDict) : Rat :=
 /-- Glyph space -> text space: 1/1000, or the horizontal scale of the Type3 font matrix. -/
 def widthScale (fd : FontDict) : Rat := if fd.isType3 then fd.fontMatrix.1 else (1 : Rat) / 1000
 
-/-- The advance reported for a code (font size 1). -/
-def specWidth (T : Tables) (fd : FontDict) (code : Int) : Rat :=
+/-- The advance of a code whose Unicode value is `u`: Widths entry, else standard-14 metric of `u`, else
+MissingWidth; times the scale. -/
+def specWidthOf (T : Tables) (fd : FontDict) (code : Int) (u : Option Text) : Rat :=
   (match widthsEntry fd code with
    | some w => w
    | none =>
-     match std14Metric T fd code with
+     match std14MetricOf T fd u with
      | some w => w
      | none => missingWidth fd) * widthScale fd
+
+/-- The advance reported for a code (font size 1). -/
+def specWidth (T : Tables) (fd : FontDict) (code : Int) : Rat :=
+  specWidthOf T fd code (specUnicode T fd code)
 
 /-- Is the glyph name that the font's encoding gives to `code` in the judged domain of names?
 (Base-table names always are; only Differences / built-in names can fall outside.) -/
@@ -289,6 +363,93 @@ def judgedCode (T : Tables) (fd : FontDict) (code : Int) : Bool :=
       | some _ => true
       | none => judgedEncName T fd code
   | none => judgedEncName T fd code
+
+/-! ### ToUnicode, exactly: pdfminer's documented space / no-break-space rule
+
+`FileUnicodeMap.add_cid2unichr`: "A0 = non-breaking space, some weird fonts can have a collision on a cid here":
+a definition of a code as U+00A0 is ignored while the code's value is U+0020.  So "last definition wins"
+(`tuText`) is exact only for maps without such a pair (`nbspClash`); the exact rule for EVERY map: -/
+
+/-- The value in effect after the definitions of ONE code (most recent first): the most recent one, except
+that a no-break space does not replace a space. -/
+def effective : List Text → Option Text
+  | [] => none
+  | v :: older => if v == [0xA0] && effective older == some [0x20] then some [0x20] else some v
+
+/-- The texts a ToUnicode map defines for `code`, most recent first. -/
+def codeDefs (defs : List (Int × List UInt8)) (code : Int) : List Text :=
+  ((defs.filter (fun d => d.1 == code)).map (fun d => utf16beIgnore d.2)).reverse
+
+def tuTextExact (defs : List (Int × List UInt8)) (code : Int) : Option Text := effective (codeDefs defs code)
+
+/-- `specUnicode` for every ToUnicode map (space / no-break-space rule included). -/
+def specUnicodeX (T : Tables) (fd : FontDict) (code : Int) : Option Text :=
+  match fd.toUnicode with
+  | some es =>
+    match tuTextExact (tuDefs es) code with
+    | some t => some t
+    | none => encodingText T fd code
+  | none => encodingText T fd code
+
+def specTextX (T : Tables) (fd : FontDict) (code : Int) : Text :=
+  match specUnicodeX T fd code with
+  | some t => t
+  | none => specPlaceholder code
+
+def specWidthX (T : Tables) (fd : FontDict) (code : Int) : Rat :=
+  specWidthOf T fd code (specUnicodeX T fd code)
+
+/-- The judged domain without the exclusion of space / no-break-space maps: only the glyph name matters. -/
+def judgedCodeX (T : Tables) (fd : FontDict) (code : Int) : Bool :=
+  match fd.toUnicode with
+  | some es =>
+    match tuTextExact (tuDefs es) code with
+    | some _ => true
+    | none => judgedEncName T fd code
+  | none => judgedEncName T fd code
+
+/-! ### The specification for EVERY font dictionary and EVERY code (no judged domain): glyph names valued by
+`pdfminerAgl` (AGL + D1 + D2), ToUnicode by `tuTextExact` -/
+
+def encTextP (T : Tables) (name : String) (diff : List DiffTok) (code : Int) : Option Text :=
+  match lastAssigned (assignments 0 diff) code with
+  | some nm => pdfminerAgl T.gl nm
+  | none => pdfminerAgl T.gl (baseName T.rows (encColumn T.cols T.dflt name) code)
+
+def encodingTextP (T : Tables) (fd : FontDict) (code : Int) : Option Text :=
+  match usesBuiltin T fd with
+  | some ff =>
+    match builtinName ff code with
+    | some nm => pdfminerAgl T.gl nm
+    | none => none
+  | none =>
+    match fd.enc with
+    | .absent => encTextP T "StandardEncoding" [] code
+    | .named n => encTextP T n [] code
+    | .dict base diff => encTextP T (base.getD "StandardEncoding") diff code
+
+def specUnicodeP (T : Tables) (fd : FontDict) (code : Int) : Option Text :=
+  match fd.toUnicode with
+  | some es =>
+    match tuTextExact (tuDefs es) code with
+    | some t => some t
+    | none => encodingTextP T fd code
+  | none => encodingTextP T fd code
+
+def specTextP (T : Tables) (fd : FontDict) (code : Int) : Text :=
+  match specUnicodeP T fd code with
+  | some t => t
+  | none => specPlaceholder code
+
+def specWidthP (T : Tables) (fd : FontDict) (code : Int) : Rat :=
+  specWidthOf T fd code (specUnicodeP T fd code)
+
+/-! ### Type3 FontMatrix -/
+
+/-- A usable FontMatrix: an array of exactly six numbers (ISO 32000-1 Table 112). -/
+def matUsable : MatSpec → Bool
+  | .list xs => xs.length == 6 && xs.all Option.isSome
+  | _ => false
 
 /-! ### Font dictionaries with the raw FontFile stream -/
 
